@@ -298,14 +298,19 @@ func modeC13(cutsFile string, thorough bool) {
 	// time-out; the paused frame carries (as EDNS padding) octets that would read as a frame of their own.
 	// Whatever the proxy does about the pause (it may close the connection), it never answers a query nobody sent
 	for _, lst := range lsts {
-		runStallStream(in4, lst)
+		runStallStream(in4, lst, false)
+	}
+	// the same with the pause right behind the length prefix; the late body begins with an ID that reads as the
+	// length of a frame (12: a bare header)
+	for _, lst := range lsts {
+		runStallStream(in4, lst, true)
 	}
 	in4.close()
 	_ = io.EOF
 	_ = dns.TypeA
 }
 
-func runStallStream(in *inst, lst string) {
+func runStallStream(in *inst, lst string, atPrefix bool) {
 	instMu.Lock()
 	connCtr++
 	conn := connCtr
@@ -329,9 +334,20 @@ func runStallStream(in *inst, lst string) {
 	o.SetUDPSize(1232)
 	o.Option = append(o.Option, &dns.EDNS0_PADDING{Padding: inner})
 	mb.Extra = append(mb.Extra, o)
+	if atPrefix {
+		// a query for the root, no OPT, ID 12: read from its third octet on, the first 12 octets of its body are a
+		// message of their own (ID 0x0100, no question)
+		mb = new(dns.Msg)
+		bname = "."
+		mb.SetQuestion(bname, dns.TypeA)
+		mb.Id = 12
+	}
 	wb, _ := mb.Pack()
 	fb := frame(wb)
 	cut := bytes.Index(fb, inner)
+	if atPrefix {
+		cut = 2
+	}
 	if cut < 0 {
 		return
 	}
